@@ -55,7 +55,8 @@ WrittenOnCreate(w, f) == InsertedCol(w, f) /\ (w.op = "create_map" \/ ~f.dflt \/
 \* upsert (OnConflict UpdateAll) on an existing row: the inserted columns that may also be updated
 \* (a zero value of a field with a literal default is inserted as that default and therefore also
 \* overwrites the existing row's value)
-WrittenOnUpsert(w, f) == InsertedCol(w, f) /\ Updatable(f) /\ ~f.key
+\* a field whose default is a database expression is never part of UpdateAll
+WrittenOnUpsert(w, f) == InsertedCol(w, f) /\ Updatable(f) /\ ~f.key /\ ~f.dbd
 
 Written(m, w) ==
   {m[i].name : i \in {j \in DOMAIN m :
@@ -65,9 +66,9 @@ Written(m, w) ==
 
 \* ---- design-level statements, checked by TLC over all 2-field models -----------------------
 CONSTANTS Perms
-Model2 == {<<[name |-> "ID", perm |-> "rw", auto |-> FALSE, key |-> TRUE, dflt |-> FALSE],
-             [name |-> "F1", perm |-> p1, auto |-> FALSE, key |-> FALSE, dflt |-> d1],
-             [name |-> "F2", perm |-> p2, auto |-> a2, key |-> FALSE, dflt |-> FALSE]>> : p1 \in Perms, p2 \in Perms, a2 \in BOOLEAN, d1 \in BOOLEAN}
+Model2 == {<<[name |-> "ID", perm |-> "rw", auto |-> FALSE, key |-> TRUE, dflt |-> FALSE, dbd |-> FALSE],
+             [name |-> "F1", perm |-> p1, auto |-> FALSE, key |-> FALSE, dflt |-> d1, dbd |-> FALSE],
+             [name |-> "F2", perm |-> p2, auto |-> a2, key |-> FALSE, dflt |-> FALSE, dbd |-> FALSE]>> : p1 \in Perms, p2 \in Perms, a2 \in BOOLEAN, d1 \in BOOLEAN}
 OpsAll == {"updates_struct", "updates_map", "update", "ucols_struct", "ucols_map", "ucol", "save", "create", "create_slice", "create_map", "upsert"}
 Pays == {<<>>, <<[f |-> "F1", zero |-> FALSE]>>, <<[f |-> "F1", zero |-> TRUE]>>,
          <<[f |-> "F1", zero |-> FALSE], [f |-> "F2", zero |-> TRUE]>>, <<[f |-> "F1", zero |-> TRUE], [f |-> "F2", zero |-> FALSE]>>}
